@@ -7,10 +7,24 @@ lock is free.
 -/
 namespace Ecal.DebugCmd
 
-/-- `m` started in `s` returns normally with a result and state satisfying `Q` -/
+/-! ## The invariant -/
+
+def IGood (is : Interro) : Prop := is.hasNode = true ∧ is.hasVs = true
+
+/-- what the command side relies on: call-stack entries are nodes with tokens, every
+    interrogation state carries the node and scope the thread stopped at -/
+def Inv0 (s : DbgState) : Prop :=
+  (∀ p ∈ s.stacks, ∀ f ∈ p.2, f.nonNil = true ∧ f.hasToken = true) ∧ (∀ p ∈ s.istates, IGood p.2)
+
+/-- post-condition of a safe command -/
+def Post {α : Type} : α → DbgState → Prop := fun _ s' => Inv0 s' ∧ s'.lock = 0
+
+/-- `m` started in `s` returns normally with a result and state satisfying `Q`, or is evaluating
+    an expression (possibly for ever) in a good state with the debugger's lock free -/
 def wp {α : Type} (m : M α) (Q : α → DbgState → Prop) (s : DbgState) : Prop :=
   match m s with
   | .ok a s' => Q a s'
+  | .evaluating s' => Inv0 s' ∧ s'.lock = 0   -- while an expression is evaluated no lock is held
   | _ => False
 
 @[simp] theorem wp_pure {α : Type} (a : α) (Q : α → DbgState → Prop) (s : DbgState) :
@@ -63,18 +77,6 @@ theorem wp_mono {α : Type} {m : M α} {Q Q' : α → DbgState → Prop} {s : Db
 theorem wp_ite {α : Type} (c : Prop) [Decidable c] (a b : M α) (Q : α → DbgState → Prop) (s : DbgState) :
     wp (if c then a else b) Q s ↔ ((c → wp a Q s) ∧ (¬ c → wp b Q s)) := by
   split <;> simp [*]
-
-/-! ## The invariant -/
-
-def IGood (is : Interro) : Prop := is.hasNode = true ∧ is.hasVs = true
-
-/-- what the command side relies on: call-stack entries are nodes with tokens, every
-    interrogation state carries the node and scope the thread stopped at -/
-def Inv0 (s : DbgState) : Prop :=
-  (∀ p ∈ s.stacks, ∀ f ∈ p.2, f.nonNil = true ∧ f.hasToken = true) ∧ (∀ p ∈ s.istates, IGood p.2)
-
-/-- post-condition of a safe command -/
-def Post {α : Type} : α → DbgState → Prop := fun _ s' => Inv0 s' ∧ s'.lock = 0
 
 theorem mem_of_lookup {β : Type} {l : List (Nat × β)} {k : Nat} {v : β} (h : l.lookup k = some v) :
     (k, v) ∈ l := by
